@@ -226,15 +226,22 @@ func (h *Hello) UnmarshalBinary(data []byte) error {
 	h.Elements = make([]HelloElem, 0)
 	for next < len(data) {
 		e := NewHelloElemHeader()
-		e.UnmarshalBinary(data[next:])
+		if err = e.UnmarshalBinary(data[next:]); err != nil {
+			return err
+		}
+		if e.Length < 4 || next+int(e.Length) > len(data) {
+			return errors.New("The hello element length is smaller than its header or larger than the message.")
+		}
 
 		switch e.Type {
 		case HelloElemType_VersionBitmap:
 			v := NewHelloElemVersionBitmap()
-			err = v.UnmarshalBinary(data[next:])
-			next += int(v.Len())
+			err = v.UnmarshalBinary(data[next : next+int(e.Length)])
 			h.Elements = append(h.Elements, v)
 		}
+		// Elements are padded to a multiple of 8 bytes; elements of an
+		// unsupported type are skipped.
+		next += (int(e.Length) + 7) / 8 * 8
 	}
 	return err
 }
